@@ -9,7 +9,7 @@
   engine where registered; this module decides the refuse / do-not-expire half.
 """
 import json, os, shutil, time
-import vbuild, vtlc, engine, gen_role, checklib
+import vbuild, vtlc, engine, gen_role, gen_rt, checklib
 from vbuild import VERIF, InfraError
 from checks import lockfam
 
@@ -53,6 +53,14 @@ def run(prop, tier, seed):
             if p is not None:
                 raise InfraError(f"engine S died on {fin}:\n" + (p.stdout or "")[-3000:] + (p.stderr or "")[-2000:])
             traces.append(fout)
+        # real-time part: persisted millisecond holds on a node that stops being the leader
+        rt = [gen_rt.gen_rt(seed, i) for i in range(3, 64 if quick else 640, 4)]
+        resr = engine.run_harness(binp, "TestVerifRT", rt, os.path.join(wd, "runrt"), tag="rt", nshards=min(len(rt), 32))
+        for fin, fout, p in resr:
+            if p is not None:
+                raise InfraError(f"engine RT died on {fin}:\n" + (p.stdout or "")[-3000:] + (p.stderr or "")[-2000:])
+            traces.append(fout)
+        scs = scs + rt
         viols, mst = engine.monitor_traces("MonLock", traces, [prop], os.path.join(wd, "mon"))
         byname = {sc["name"]: sc for sc in scs}
         for v in viols:
@@ -91,7 +99,7 @@ def run(prop, tier, seed):
                         "evaluations": len(scs), "distinct_nontrivial": len({json.dumps(s["steps"], sort_keys=True) for s in scs}),
                         "rule": "one evaluation = one role-change history replayed on the real code and validated by the TLA+ monitor"}
         out.assumptions = ["role switched in-process on a leader instance; forwarding through a follower port not exercised here",
-                           "second-granularity timers only (millisecond expiries are real-time and excluded from the virtual clock)"]
+                           "millisecond holds are exercised on the real clock (engine RT) for a few seconds only, far short of the 300 s window"]
         return out
     finally:
         shutil.rmtree(wd, ignore_errors=True)
